@@ -266,6 +266,7 @@ type RunResult struct {
 	Samples    []*Vector
 	Diffs      []DiffRec
 	EventPaths [][]Event
+	Budget     []*Vector // inputs on which a path exhausted its step budget
 }
 
 // Explore runs the harness entry over all feasible paths within the budgets.
@@ -434,6 +435,9 @@ func (m *Machine) merge(rr *RunResult, res *PathResult) {
 			rr.Panics[res.Detail] = res.PanicVec
 		}
 	}
+	if res.Outcome == "budget" && res.PanicVec != nil && len(rr.Budget) < 3 {
+		rr.Budget = append(rr.Budget, res.PanicVec)
+	}
 	for f := range res.Funcs {
 		rr.Funcs[f] = true
 	}
@@ -474,6 +478,12 @@ func (m *Machine) runPath(s *sym.Solver, fn *ssa.Function, prefix []Dec) (res *P
 		case abort:
 			res.Outcome = r.kind
 			res.Detail = r.detail
+			if r.kind == "budget" {
+				for s.Depth() > depth+1 {
+					s.Pop()
+				}
+				_, res.PanicVec = e.vector("", "budget", r.detail)
+			}
 		case targetPanic:
 			res.Outcome = "panic"
 			res.Detail = e.panicText(r.v)
